@@ -22,7 +22,9 @@ Inputs (no reference molecule is needed, the invariant is per atom):
                  block copolymers; unlabelled `$` and `>`/`<` so that matching is ambiguous on purpose; charged and aromatic
                  monomers, monomers bonded through double-bond descriptors;
   family 'hexp'  explicit hydrogens: `[$][H]` end groups, `[H]` written inside a fragment, weighted `[H;0.2]`, weighted
-                 heavy atoms.
+                 heavy atoms, weight 0 (`[C;0]`, `[C;w=0]`, `[H;0]`: falsy but a weight like any other); chains
+                 cap - first - second in which the explicit hydrogen is stored before atoms that are bonded through a
+                 descriptor of order 2 / 3 or shared with `!` (hfirst_cases), in both listing orders.
 
 Scope decisions: a string that does not resolve (exception) is outside the statement ("all resolvable strings") and is
 SKIPPED here - C01 / C10 decide whether it should have resolved.  One-hydrogen end groups are only combined with monomers
@@ -47,8 +49,10 @@ CHUNK = 50
 BOUNDS = {
     'quick': {'cut': 'every partition of every molecule <= 3 heavy atoms over C N O S P F Cl Br [N+] [O-] [S-] and of every molecule with 4 heavy atoms over C N O (1 rendering); 43 library '
                      'molecules x 8 seeded partitions x {disjoint, 1-3 cuts shared}',
-              'poly': '24 monomers x 14 topologies (1-6 units) x 6 end groups where the topology has ends',
-              'hexp': '14 hand-written explicit-hydrogen descriptions x 3 topologies'},
+              'poly': '27 monomers (3 with a weight-0 atom) x 14 topologies (1-6 units) x 6 end groups where the topology has ends',
+              'hexp': '23 hand-written explicit-hydrogen descriptions (9 with weight 0) x 3 topologies; explicit hydrogen first: '
+                      '{5+2 capped, 5+2 with [H] inside} first fragments x {5 double-, 3 triple-bonded} second fragments x 2-3 listing '
+                      'orders, 5 first x 5 second fragments joined by `!` x 2 orders (205 strings)'},
     'thorough': {'cut': 'as quick with <= 4 heavy atoms over C N O Cl [N+] [O-], 30 partitions per library molecule, 3 renderings',
                  'poly': 'as quick plus every ordered pair of monomers in the block / alternating topologies',
                  'hexp': 'as quick'},
@@ -67,6 +71,7 @@ MONOMERS = [
     '[>]CC[<][NH3+]', '[>]CC[<]c1ccncc1', '[$]CC[$][$]', '[>]=CC=[<]', '[$]=CC=[$]', '[$]cc[$]', '[$]c1ccc(cc1)[$]',
     '[$]c1cccc(n1)[$]', '[$]CSC[$]', '[$]CP(C)C[$]', '[$]C(F)(F)C(F)(F)[$]', '[$]CC(Cl)[$]', '[$]C[N+](C)(C)C[$]',
     '[<]CC[>]Br', '[$]C#CC[$]', '[$]N=C[$]', '[>]C[<][>]',
+    '[<][C;0]OC[>]', '[$][C;w=0]C[$]', '[>][C;0][<]c1ccccc1',      # weight 0 on atoms that receive rebuilt hydrogens
 ]
 ENDS = ['[$]O', '[<]O', '[>]C', '[$][O-]', '[$]C(=O)[O-]', '[$]Cl']
 # topologies: M = monomer, N = second monomer (same as M unless stated), T = end group
@@ -96,12 +101,58 @@ HEXP = [
     ('#M=[$]C[$],#T=[$][H]', ['T'], None),
     ('#M=[$]C=C[$],#T=[$][H]', ['T'], None),
 ]
+# weight 0 (an atom excluded from a weighted centre) written on heavy atoms and on explicit hydrogens, as `;0` and `;w=0`:
+# a rebuilt hydrogen inherits the 0, an explicitly weighted hydrogen keeps its own weight next to a parent of weight 0
+HEXP += [
+    ('#M=[$][C;0]C[$],#T=[$]O', [], None),
+    ('#M=[$][C;w=0]C[$],#T=[$][H]', ['T'], None),
+    ('#M=[$]C[C;0]([$])C,#T=[$][OH;0]', [], None),
+    ('#M=[$][C;0]O[C;0.5][$],#T=[$][H]', ['T'], None),
+    ('#M=[$]C[N;0]([H;0.7])C[$],#T=[$]C', [], {('N', 0): [0.7]}),
+    ('#M=[$][C;0.5]([H;0])([H;0.2])C[$],#T=[$][H]', ['T'], {('C', 0.5): [0, 0.2]}),
+    ('#M=[$][C;0]([H;0])C[$],#T=[$]O', [], {('C', 0): [0]}),
+    ('#M=[O;0]([H;0.2])C[$]C[$],#T=[$]O', [], {('O', 0): [0.2]}),
+    ('#M=[$][C;w=0]([H;w=0.3])C[$],#T=[$][H]', ['T'], {('C', 0): [0.3]}),
+]
 HEXP_TOPOLOGIES = ['{[#T][#M]|2[#T]}', '{[#M]1[#M][#M]1}', '{[#T][#M]([#M][#T])[#M]}']
+
+
+# ---- an explicitly written hydrogen is stored EARLY in the molecule and a later atom is bonded through a descriptor of
+# order 2 / 3 or is a shared (`!`) atom: the hydrogen counts of the atoms behind the hydrogen have to be recomputed too.
+# Every string below is a chain  cap - first - second  (or first - second); all descriptor pairs are unambiguous.
+HFIRST_CAPPED = {2: ['[$]CC=[>]', '[$]OC=[>]', '[$]NC=[>]', '[$]CC(C)=[>]', '[$]C(C)C=[>]'], 3: ['[$]CC#[>]', '[$]OC#[>]']}
+HFIRST_INSIDE = {2: [('C([H])([H])C=[>]', None), ('O([H])CC=[>]', None), ('N([H])([H])C=[>]', None),
+                     ('[O;0.5]([H;0.2])CC=[>]', {('O', 0.5): [0.2]}), ('C([H])C([H])=[>]', None)],
+                 3: [('C([H])([H])C#[>]', None), ('O([H])CC#[>]', None)]}
+HSECOND = {2: ['[<]=CC', '[<]=C', '[<]=NC', '[<]=C(C)C', '[<]=CC=O'], 3: ['[<]#CC', '[<]#N', '[<]#C']}
+HSQUASH_FIRST = [('#T=[$][H],#A=[$]OC[!]', '{[#T][#A][#B]}', '{[#B][#A][#T]}', ['T']),
+                 ('#T=[$][H],#A=[$]CC[!]', '{[#T][#A][#B]}', '{[#B][#A][#T]}', ['T']),
+                 ('#T=[$][H],#A=[$]NC(C)[!]', '{[#T][#A][#B]}', '{[#B][#A][#T]}', ['T']),
+                 ('#A=O([H])C[!]', '{[#A][#B]}', '{[#B][#A]}', []),
+                 ('#A=C([H])([H])C[!]', '{[#A][#B]}', '{[#B][#A]}', [])]
+HSQUASH_SECOND = ['[!]C(C)C', '[!]C(=O)C', '[!]C(C)(C)C', '[!]C(C)=C', '[!]CC#N']
+
+
+def hfirst_cases():
+    for k in (2, 3):
+        for b in HSECOND[k]:
+            for a in HFIRST_CAPPED[k]:
+                for topo in ('{[#T][#A][#B]}', '{[#B][#A][#T]}', '{[#A]([#T])[#B]}'):
+                    yield {'fam': 'hexp', 'text': topo + '.{#T=[$][H],#A=' + a + ',#B=' + b + '}', 'hfrag': ['T'], 'hweights': []}
+            for a, hw in HFIRST_INSIDE[k]:
+                for topo in ('{[#A][#B]}', '{[#B][#A]}'):
+                    yield {'fam': 'hexp', 'text': topo + '.{#A=' + a + ',#B=' + b + '}', 'hfrag': [],
+                           'hweights': [[list(kk), v] for kk, v in (hw or {}).items()]}
+    for frags, t1, t2, hn in HSQUASH_FIRST:
+        for b in HSQUASH_SECOND:
+            for topo in (t1, t2):
+                yield {'fam': 'hexp', 'text': topo + '.{' + frags + ',#B=' + b + '}', 'hfrag': hn, 'hweights': []}
 
 
 def cases(tier, seed):
     rng = random.Random(seed * 499 + 1)
     quick = tier == 'quick'
+    yield from hfirst_cases()
     # ---- explicit hydrogens first (small and the most specific)
     for frags, hnames, hw in HEXP:
         for topo in HEXP_TOPOLOGIES:
@@ -199,9 +250,15 @@ def check_case(case):
         for n, d in fine.nodes(data=True):
             if d.get('element') == 'H':
                 continue
-            hs = sorted(fine.nodes[m].get('weight') for m in fine[n] if fine.nodes[m].get('element') == 'H' and m not in explicit)
+            hs = [fine.nodes[m].get('weight') for m in fine[n] if fine.nodes[m].get('element') == 'H' and m not in explicit]
             key = (d.get('element'), d.get('weight'))
             exp_explicit = hw.get(key, [])
+            if None in hs or d.get('weight') is None:
+                # every atom has a weight (1 unless annotated): a hydrogen without one did not inherit its atom's
+                if None in hs:
+                    fail('h-weight', '%s%r (weight %r) has a hydrogen without weight attribute: %s' % (d.get('element'), n, d.get('weight'), hs))
+                continue
+            hs = sorted(hs)
             want = sorted(exp_explicit + [d.get('weight')] * (len(hs) - len(exp_explicit)))
             if len(hs) < len(exp_explicit) or hs != want:
                 fail('h-weight', '%s%r (weight %r) has hydrogens with weights %s, expected %s (explicit %s, the rest inherited)'
